@@ -219,7 +219,9 @@ def check_class(prog, cd, rep, cname, amap, items, c):
             installed = True
             v = t.value
             nd = None
-            if isinstance(v, ast.Name):
+            raw = getattr(t.node, "value", None)
+            as_list = isinstance(raw, (ast.List, ast.ListComp)) or (isinstance(raw, ast.Call) and (norm(raw.func) == "list" or (isinstance(raw.func, ast.Attribute) and raw.func.attr == "tolist")))
+            if isinstance(v, ast.Name) and not as_list:
                 for ft in walk_terms(u.rterms):
                     if isinstance(ft, Field) and ft.ph == v.id and ft.count is not None:
                         nd = ft
